@@ -403,3 +403,39 @@ def shuffled_order(S, rng):
         done.add(pick)
         out.append(pick)
     return out
+
+
+def permuted_names(S, rng, which=None):
+    """the system S with its names exchanged among its own objects: every domain / strand / complex (and so macrostate)
+    name of S is declared again, but denotes what another name of the same kind denoted in S (a cyclic exchange in a
+    random order, so with two or more names of a kind no name keeps its meaning).  `which`: the kinds exchanged
+    ("d", "s", "c"), random (at least one) by default.  The result is consistent whenever S is; a document of it is a
+    legitimate re-declaration of every name once the objects of S have been released."""
+    def cyc(names):
+        names = list(names)
+        rng.shuffle(names)
+        return {a: b for a, b in zip(names, names[1:] + names[:1])}
+    same = lambda names: {n: n for n in names}
+    if which is None:
+        which = [k for k in "dsc" if rng.random() < 0.7] or [rng.choice("dsc")]
+    dm = (cyc if "d" in which else same)(S.domains)
+    sm = (cyc if "s" in which else same)(S.strands)
+    cm = (cyc if "c" in which else same)(S.complexes)
+    star = lambda m, n: (m[n[:-1]] + "*") if n.endswith("*") else m[n]
+    md = lambda x: x if x == "+" else star(dm, x)
+    T = System()
+    T.domains = {dm[n]: v for n, v in S.domains.items()}
+    T.strands = {sm[n]: [md(d) for d in sq] for n, sq in S.strands.items()}
+    T.complexes = {cm[n]: ([md(x) for x in sq], list(st), conc, nt) for n, (sq, st, conc, nt) in S.complexes.items()}
+    for n, h in S.hints.items():
+        h2 = dict(h)
+        if "strands" in h:
+            h2["strands"] = [sm[s] for s in h["strands"]]
+        if "subs" in h:
+            h2["subs"] = [(i, k, star(sm, tok), kind) for (i, k, tok, kind) in h["subs"]]
+        T.hints[cm[n]] = h2
+    T.macrostates = {cm[n]: [cm[x] for x in ms] for n, ms in S.macrostates.items()}
+    T.reactions = [([cm[x] for x in re], [cm[x] for x in pr], rt, rate, u) for re, pr, rt, rate, u in S.reactions]
+    mp = {"domain": dm, "strand": sm, "complex": cm, "macrostate": cm}
+    T.order = [(k, mp[k][key] if k in mp else key) for k, key in S.order]
+    return T
